@@ -13,6 +13,8 @@
 (*   - ragged lengths 0..MaxLen are explored for up to MaxRagged series (MaxRaggedInt    *)
 (*     when the values are ints); larger name sets (every subset of the pool) are        *)
 (*     explored with one value per series, which is also the state Solve starts from;    *)
+(*   - holders constructed with another axis name (Axes: 'iteration' as the solver's step  *)
+(*     trace, 't') are explored over every subset of the pool with one "num" value each;  *)
 (*   - Solve only on "num" series created without extension; the renders of a history    *)
 (*     are the applicable format classes in the order of FormatSeq.                      *)
 (*                                                                                       *)
@@ -26,7 +28,7 @@
 (* not multiply the histories.                                                           *)
 EXTENDS Table, Json
 
-CONSTANTS Mode, MaxRagged, MaxRaggedInt, MaxExtends, PoolOrder, MaxMut, MaxObs, MaxConds, UseOpts, UseBlocks
+CONSTANTS Mode, MaxRagged, MaxRaggedInt, MaxExtends, PoolOrder, MaxMut, MaxObs, MaxConds, UseOpts, UseBlocks, Axes
 
 N_A    == << 65 >>
 N_a    == << 97 >>
@@ -53,6 +55,8 @@ MC_Names == Range(PoolOrder)
 MC_Formats == << "g5", "g12", "f", "e", "d" >>
 MC_EditFormats == << "g12", "d", "f", "g5", "e" >>
 MC_Horizon1 == {1}
+MC_AxisK == {NmK}
+MC_Axes == {NmK, Iteration, NmT}
 MC_Horizons_edit == {0, 2}
 MC_Horizons_quick == {0, 2}
 MC_Horizons_thorough == {0, 1, 3}
@@ -75,15 +79,22 @@ PutNames ==
     IF puts = << >> THEN Names
     ELSE { n \in Names : PoolIdx(n) > PoolIdx(LastPut.name) }
          \cup (IF NumExtends(puts) < MaxExtends /\ LastPut.kind = "num" THEN {LastPut.name} ELSE {})
-PutKinds == IF puts = << >> THEN Kinds ELSE {LastPut.kind}
+PutKinds == IF axis # NmK THEN {"num"} ELSE IF puts = << >> THEN Kinds ELSE {LastPut.kind}
 PutLens(n, kind) ==
+    IF axis # NmK THEN {1} ELSE
     IF Cardinality(DOMAIN holder \cup {n}) <= (IF kind = "int" THEN MaxRaggedInt ELSE MaxRagged) THEN 0..MaxLen
     ELSE IF \A m \in DOMAIN holder : holder[m].len = 1 THEN {1} ELSE {}
 
+(* holders constructed with another axis name than 'k' (as the solver's step trace is): every *)
+(* subset of the pool with one "num" value per series, no solve                                *)
+OtherAxis == axis # NmK
+
 GridNext ==
+    \/ /\ hist = << >> /\ \E a \in Axes \ {NmK} : Create(a)
     \/ /\ phase = "build" /\ NumRenders = 0 /\ stated = Unstated /\ conds = {}
        /\ \E n \in PutNames : \E kind \in PutKinds : \E len \in PutLens(n, kind) : Put(n, len, kind)
     \/ /\ phase = "build" /\ NumRenders = 0
+       /\ axis = NmK
        /\ \A n \in DOMAIN holder : holder[n].kind = "num"
        /\ NumExtends(puts) = 0
        /\ \A n \in DOMAIN holder : holder[n].len = 1
